@@ -40,7 +40,8 @@ CHECKS["C08"] = dict(
 CHECKS["C16"] = dict(
     text="Theorems for every axis length d>=1: Butterworth grid = (fftfreq/cutoff)^2, gain formula, "
          "weight(0)=1, Hermitian symmetry at all bins, weight in (0,1], half-spectrum limit, output "
-         "shape = input shape, exact identity guard, both copies identical. FFTs are parameters.",
+         "shape = input shape, exact identity guard, both copies identical; the lru_cached weight is never "
+         "written to and a memo table answers every call history with the weight itself. FFTs are parameters.",
     design="5 C16", technique="Lean 4 proof over generated Butterworth kernels + weight/shape correspondence")
 
 CHECKS["C05"] = dict(
@@ -86,8 +87,9 @@ CHECKS["C15"] = dict(
     text="Theorems for every b >= 1 and axis length: block structure of bin_image (s//b outputs, "
          "remainder < b dropped), scale * b, translated molecule read at the new scale maps back to the "
          "same original pixel coordinate, voxel k of a binned box = b-block K = b*k+j of the b-times larger "
-         "original box; single and batch loaders use identical arithmetic. Block-sum model compared voxel "
-         "by voxel with bin_image (numpy and dask).",
+         "original box; single and batch loaders use identical arithmetic; binning by a then b = binning by a*b "
+         "(voxels, lengths, translations, scales) and mass is conserved over the kept voxels. Block-sum model "
+         "compared voxel by voxel with bin_image (numpy, dask incl. irregular chunks, mixed batches).",
     design="5 C15", technique="Lean 4 proof over generated binning kernels + block-sum correspondence")
 
 CHECKS["C12"] = dict(
